@@ -23,6 +23,7 @@ let props : (string * prop) list = [
   "C04", sess_prop P_sess.check_C04 P_sess.nontrivial;
   "C04", { tag = "wf"; check = P_c04.check_wf; cross_header = ""; cross_footer = ""; nontrivial = P_c04.nontrivial_other };
   "C04", { tag = "alloc"; check = P_c04.check_alloc; cross_header = ""; cross_footer = ""; nontrivial = P_c04.nontrivial_other };
+  "C04", { tag = "c20"; check = (fun f -> (fst (P_c20.check f), None)); cross_header = ""; cross_footer = ""; nontrivial = P_c20.nontrivial };
   "C11", { tag = "sess"; check = P_c11.check; cross_header = ""; cross_footer = ""; nontrivial = P_c11.nontrivial };
   "C09", sess_prop P_sess.check_C09 P_sess.nontrivial;
   "C14", { tag = "c14"; check = P_c14.check; cross_header = P_c14.cross_header; cross_footer = P_c14.cross_footer; nontrivial = P_c14.nontrivial };
